@@ -1,4 +1,5 @@
 import EpsicProofs.Lemmas.GaussJordan
+import EpsicProofs.Lemmas.CxField
 import Mathlib.LinearAlgebra.Matrix.Determinant.Basic
 /-! # C13 — fixed-size vectors and matrices obey the laws of linear algebra
 
@@ -167,6 +168,17 @@ theorem nonsingular_inverted {n : Nat} {β : Type} (mag : K → β) (ge : β →
     (m : Mat n n K) (hdet : (toM m).det ≠ 0) :
     ∃ x, Gauss.inv (Gauss.pickMax mag ge z) m = .ok x ∧ toM x * toM m = 1 ∧ toM m * toM x = 1 :=
   Gauss.inv_complete mag ge z hm m hdet
+/-- **complex matrices**: the same two clauses for the templates instantiated at `std::complex` (the model's
+`Cx K` with its own scalar instance, shown in `Lemmas/CxField.lean` to be the field `CxF K`) -/
+theorem complex_inverse_two_sided {K' : Type} [Field K'] [LinearOrder K'] [IsStrictOrderedRing K'] [DecidableEq K'] {n : Nat}
+    (pick : Gauss.Pick n n (Cx K')) (hpick : ∀ st r col, pick st = some (r, col) → st.used r = false ∧ st.used col = false)
+    (m x : Mat n n (Cx K')) (h : Gauss.inv pick m = .ok x) : Mat.mul x m = Mat.identity ∧ Mat.mul m x = Mat.identity :=
+  complex_inv_two_sided pick hpick m x h
+theorem complex_nonsingular_inverted {K' : Type} [Field K'] [LinearOrder K'] [IsStrictOrderedRing K'] [DecidableEq K'] {n : Nat}
+    (m : Mat n n (CxF K')) (hdet : (toM m).det ≠ 0) :
+    ∃ x : Mat n n (Cx K'), @Gauss.inv (Cx K') Cx.instArith n
+      (Gauss.pickMax (fun z : CxF K' => z.re*z.re + z.im*z.im) (fun a b => decide (a ≥ b)) (0 : K')) m = .ok x :=
+  complex_inv_complete _ _ _ magSpec_norm m hdet
 /-- singular matrices are reported, never inverted -/
 theorem singular_reported {n : Nat} (pick : Gauss.Pick n n K) (hpick : Gauss.PickOK pick) (m : Mat n n K)
     (hdet : (toM m).det = 0) : ∃ e, Gauss.inv pick m = .error e := Gauss.inv_singular pick hpick m hdet
